@@ -76,6 +76,18 @@ def _chain(chk):
                     rev_true = True
                 else:
                     rev_other = True
+    # in-place spelling: `names.reverse()` as a statement on the list that is then read
+    for stt in gf.statements():
+        if isinstance(stt, ast.Expr) and isinstance(stt.value, ast.Call) and isinstance(stt.value.func, ast.Attribute) and stt.value.func.attr == "reverse" \
+                and isinstance(stt.value.func.value, ast.Name) and not stt.value.args:
+            v = stt.value.func.value.id
+            read_later = any(isinstance(n, ast.Name) and n.id == v and isinstance(n.ctx, ast.Load) for r in returns_of(gt) for n in ast.walk(r.value))
+            if read_later:
+                plain = True  # the same list, unreversed, when the statement is skipped
+                if any(isinstance(t, ast.Name) and t.id == "inverse" and pol for t, pol, _ in effective_guards(gf, stt)):
+                    rev_true = True
+                else:
+                    rev_other = True
     rev = rev_true and plain and not rev_other
     src_ok = "transformer_types" in norm(gt.node)
     chk.check(rev and src_ok, "MIRROR.chain.reverse", gt, gt.node, construct="get_transformers(inverse=True) is the table reversed",
@@ -113,7 +125,9 @@ def _chain(chk):
     for mname in ("serialize", "deserialize"):
         m = prep.methods[mname]
         called = {(c.func.attr if isinstance(c.func, ast.Attribute) else getattr(c.func, "id", "")) for c in calls_in(m)}
-        ok = {"transformer_types", "get_transformers"} <= called
+        # the stage objects are taken from get_transformers() or looked up by the table's names
+        by_name = any(isinstance(c.func, ast.Name) and c.func.id == "getattr" and len(c.args) == 2 and isinstance(c.args[1], ast.Name) for c in calls_in(m))
+        ok = "transformer_types" in called and ("get_transformers" in called or by_name)
         chk.check(ok, "MIRROR.chain.serial", m, m.node, construct=f"{mname} pairs the table names with get_transformers()",
                   why=f"{mname} no longer walks the same stage table as fit/transform")
 
@@ -189,6 +203,12 @@ def _stacker(chk):
             vs = {p.atom.name for p in ffit.paths(v, spine_only=True) if p.atom.kind == "param"}
             if len(ks) == 1 and len(vs) == 1:
                 pairs.add((next(iter(ks)), next(iter(vs))))
+    for stt in walk_no_nested(fit.node):
+        if isinstance(stt, ast.Assign) and isinstance(stt.targets[0], ast.Subscript) and is_self_attr(stt.targets[0].value, "dims_mapping"):
+            ks = {p.atom.name for p in ffit.paths(stt.targets[0].slice, spine_only=True)}
+            vs = {p.atom.name for p in ffit.paths(stt.value, spine_only=True) if p.atom.kind == "param"}
+            if len(ks) == 1 and len(vs) == 1:
+                pairs.add((next(iter(ks)), next(iter(vs))))
     chk.check({("self.sample_name", "sample_dims"), ("self.feature_name", "feature_dims")} <= pairs, "MIRROR.state.stack.mapping", fit, fit.node,
               construct="fit records {sample_name: sample_dims, feature_name: feature_dims}", why="dims_mapping no longer records which original dimensions each stacked name stands for")
     # dataset variant: variable level name
@@ -201,9 +221,11 @@ def _stacker(chk):
               why="Datasets must be stacked into the feature_name dimension")
     for mname in ("_unstack_to_dataset_data", "_unstack_to_dataset_components"):
         m = st.methods[mname]
-        mf = FuncFacts.of(m)
-        rd = [c for c in calls_in(m) if isinstance(c.func, ast.Attribute) and c.func.attr == "to_unstacked_dataset"]
-        chk.require(len(rd) == 1, f"Stacker.{mname}: to_unstacked_dataset vanished")
+        # (one of the two may delegate its tail to the other)
+        found = [(g, c) for g in class_closure(pm, st, m) for c in calls_in(g) if isinstance(c.func, ast.Attribute) and c.func.attr == "to_unstacked_dataset"]
+        chk.require(len(found) == 1, f"Stacker.{mname}: to_unstacked_dataset vanished")
+        mf = FuncFacts.of(found[0][0])
+        rd = [found[0][1]]
         lvl = rd[0].args[1] if len(rd[0].args) > 1 else call_kwargs(rd[0]).get("level")
         dimarg = rd[0].args[0] if rd[0].args else call_kwargs(rd[0]).get("dim")
         ok = const_str(lvl) == wname and dimarg is not None and {p.atom.name for p in mf.paths(dimarg, spine_only=True)} == {"self.feature_name"}
@@ -248,12 +270,29 @@ def _stacker(chk):
         m = st.methods[mname]
         mf = FuncFacts.of(m)
         rets = returns_of(m)
-        ok = bool(rets) and all(any(any(o.kind == "arg" and o.name == "self._reorder_dims" for o in p.ops) or (p.atom.kind == "call" and p.atom.name == "self._reorder_dims") for p in mf.paths(r.value, spine_only=True)) for r in rets)
+        def reordered(mf2, e, depth=0):
+            for p in mf2.paths(e, spine_only=True):
+                if any(o.kind == "arg" and o.name == "self._reorder_dims" for o in p.ops) or (p.atom.kind == "call" and p.atom.name == "self._reorder_dims"):
+                    return True
+                # the tail is delegated to a sibling that ends in _reorder_dims
+                if depth < 2 and p.atom.kind == "call" and p.atom.name.startswith("self._unstack") and not p.ops:
+                    sib = st.resolve(p.atom.name.split(".")[-1])
+                    if sib is not None and sib is not mf2.fn and all(reordered(FuncFacts.of(sib), r2.value, depth + 1) for r2 in returns_of(sib)):
+                        return True
+                for o in p.ops:
+                    if depth < 2 and o.kind == "arg" and o.name.startswith("self._unstack"):
+                        sib = st.resolve(o.name.split(".")[-1])
+                        if sib is not None and sib is not mf2.fn and all(reordered(FuncFacts.of(sib), r2.value, depth + 1) for r2 in returns_of(sib)):
+                            return True
+            return False
+
+        ok = bool(rets) and all(reordered(mf, r.value) for r in rets)
         chk.check(ok, "MIRROR.order", m, rets[0] if rets else m.node, construct=f"{mname} ends in _reorder_dims", why="the original dimension order is not restored")
     ro = st.methods["_reorder_dims"]
     chk.check("self.dims_in" in norm(ro.node) and "transpose" in norm(ro.node), "MIRROR.order.dims_in", ro, ro.node, construct="_reorder_dims transposes to dims_in order",
               why="_reorder_dims no longer uses the dimension order recorded at fit")
-    okd = any(isinstance(s, ast.Assign) and is_self_attr(s.targets[0], "dims_in") and norm(s.value).endswith(".dims") for s in walk_no_nested(fit.node))
+    okd = any(isinstance(s, ast.Assign) and is_self_attr(s.targets[0], "dims_in") and any(
+        p.atom.kind == "param" and [o.name for o in p.ops if o.kind == "attr"] == ["dims"] for p in ffit.paths(s.value, spine_only=True)) for s in walk_no_nested(fit.node))
     chk.check(okd, "MIRROR.order.dims_in", fit, fit.node, construct="fit records dims_in = X.dims", why="fit no longer records the input's dimension order")
 
 
